@@ -32,6 +32,14 @@ def shapes_suite(tier, seed):
                 if rng.random() < 0.3:
                     for p in d["protocols"]:
                         p.pop("type_prefix", None)
+                if rng.random() < 0.35:
+                    # declared but unused protocols, listed BEFORE the used ones and with other id widths: the records
+                    # and interface types come from the protocols endpoints really use
+                    spare = []
+                    for p in d["protocols"]:
+                        q = dict(p, name="spare_" + p["name"], id_width=p["id_width"] + 3)
+                        spare.append(q)
+                    d["protocols"] = spare + d["protocols"]
                 alloc = families.Alloc(rng)
                 eps, conns = [], []
                 roles = families.ensure_roles([rng.choice(["m", "s", "ms"]) for _ in range(k)], rng)
